@@ -263,10 +263,23 @@ pub fn rich_action(id: usize, rng: &mut Rng, blen: usize, may_overread: bool) ->
 
 fn assemble(rng: &mut Rng, reqs: &[AReq], script: Vec<Action>, mode: Mode, extra_intent: &str) -> ConnCase {
     let mut bytes = vec![];
+    // per element: offset where it ends, offset where its head ends, 1 if its body is buffered at parse time
+    let mut ends: Vec<String> = vec![];
     for r in reqs {
-        bytes.extend_from_slice(&render(rng, r));
+        let start = bytes.len();
+        let piece = render(rng, r);
+        let head_len = piece.windows(4).position(|w| w == b"\r\n\r\n").map(|p| p + 4).unwrap_or(piece.len());
+        bytes.extend_from_slice(&piece);
+        let small = r.class == "ok" && r.framing == Framing::Len && r.body.len() <= 1024 && !r.expect100 && !r.upgrade;
+        ends.push(format!("{}:{}:{}", bytes.len(), start + head_len, if small { 1 } else { 0 }));
     }
+    let extra_intent = format!("{} i_ends={}", extra_intent, ends.join(","));
+    let extra_intent = extra_intent.as_str();
     ConnCase { bytes, mode, hold: None, segs: vec![], script, unix: false, intent: format!("{} {}", intent_of(reqs), extra_intent).trim().to_string() }
+}
+
+pub fn assemble_pub(rng: &mut Rng, reqs: &[AReq], script: Vec<Action>) -> ConnCase {
+    assemble(rng, reqs, script, Mode::HalfClose, "")
 }
 
 const METHODS: &[&str] = &["GET", "HEAD", "POST", "PUT", "DELETE", "CONNECT", "OPTIONS", "TRACE", "PATCH", "get", "Get", "PROPFIND", "M-SEARCH", "X", "a!#$%&'*+-.^_`|~z"];
@@ -292,7 +305,11 @@ pub fn gen_c02(rng: &mut Rng) -> ConnCase {
         r.url = match rng.below(5) {
             0 => "*".into(),
             1 => format!("/{}?q={}#frag", rand_token(rng, 8), rand_token(rng, 5)),
-            2 => format!("http://{}/{}", rand_token(rng, 6), rand_token(rng, 2000)), // > 1 KiB line
+            2 => {
+                // lines longer than the 1 KiB read buffer, than 8 KiB, than 16 KiB
+                let n = *rng.pick(&[2000usize, 2000, 8700, 20000]);
+                format!("http://{}/{}", rand_token(rng, 6), rand_token(rng, n))
+            }
             3 => "/%20%00/..//a;b=c".into(),
             _ => format!("/{}", i),
         };
@@ -308,7 +325,7 @@ pub fn gen_c02(rng: &mut Rng) -> ConnCase {
                 4 => crate::recase(rng, "Cookie"),
                 _ => format!("X-{}", rand_token(rng, 3)),
             };
-            let vl = *rng.pick(&[0usize, 0, 1, 5, 20, 60, 1500]);
+            let vl = *rng.pick(&[0usize, 0, 1, 5, 20, 60, 1500, 1500, 8700]);
             r.hdrs.push((name, rand_value(rng, vl)));
         }
         if rng.chance(1, 30) {
@@ -636,6 +653,8 @@ pub fn gen_c18(rng: &mut Rng) -> ConnCase {
         if ar > 0 {
             let head_end = c.bytes.windows(4).position(|w| w == b"\r\n\r\n").map(|p| p + 4).unwrap_or(0);
             c.hold = Some(head_end);
+            // the interim response must be there before the body is released
+            c.intent.push_str(" i_holdneed=1");
         }
     }
     c
